@@ -78,6 +78,8 @@ def render(blocks):
                 lines.append(f"{ind}#S " + " ".join(sq))
         lines.append(f"{ind}# {b['id']}")
         if lay["headers"] == 2:
+            if lay.get("s_first") and lay["blank_before_count"]:
+                lines.append("")   # a blank line between two header lines
             lines.append(f"{ind}#second header line, ignored")
         if not lay.get("s_first"):
             for sq in b["slines"]:
@@ -254,6 +256,8 @@ def run(case):
             corruptions.append((f"line {i}: token removed", lines[:i] + [" ".join(toks[:2])] + lines[i + 1:]))
             corruptions.append((f"line {i}: token added", lines[:i] + [s + " 1"] + lines[i + 1:]))
             corruptions.append((f"line {i}: non-numeric weight", lines[:i] + [f"{toks[0]} {toks[1]} heavy"] + lines[i + 1:]))
+            corruptions.append((f"line {i}: weight 'nan'", lines[:i] + [f"{toks[0]} {toks[1]} nan"] + lines[i + 1:]))
+            corruptions.append((f"line {i}: weight 'inf'", lines[:i] + [f"{toks[0]} {toks[1]} inf"] + lines[i + 1:]))
     for what, bad in corruptions:
         tags["corruptions"] += 1
         try:
